@@ -68,6 +68,7 @@ func init() {
 }
 
 func runC37(c *Ctx) {
+	gracePeriodEnd(c, "G4-grace-period-end")
 	requireStateless(c, "M1-no-state-between-requests", "(private/ca/renewal.RequestVerifier).VerifyCMSSignedRenewalRequest")
 	// "that chain verifies against the currently valid TRC" is cppki.VerifyChain: the
 	// chain validation, the x509 verification at the given time against the TRC's
